@@ -126,8 +126,81 @@ def callee_inserts_keyed(repo, callee, call, derived):
     return False, "callee not found"
 
 
+def classify_chain(chain, top):
+    """Verdict for an adaptor chain starting at an order-exposing call: True (order-insensitive), False (order reaches a sequence), None."""
+    term = chain[-1]
+    mids = chain[1:-1] if len(chain) > 1 else []
+    if len(chain) == 1 or any(x not in PASSTHROUGH for x in mids):
+        return None
+    if term in INSENSITIVE_TERMINALS:
+        return True
+    if term == "collect":
+        tf = top.get("turbofish", "")
+        if re.search(r"(Hash|BTree)(Map|Set)", tf):
+            return True
+        if re.search(r"\b(Vec|String|TokenStream|VecDeque|Box)\b", tf):
+            return False
+        return None
+    if term in ("next", "last", "nth", "find", "find_map", "position", "fold", "reduce", "for_each", "unzip", "zip", "enumerate", "rev", "take", "skip", "take_while", "skip_while"):
+        return None if term in ("for_each", "fold", "reduce") else False
+    return None
+
+
+def r4_mir(chk):
+    """Thorough tier: every type-resolved order-exposing call on a std hash container (whatever alias, field or helper it is reached
+    through) is one that R1 classified; otherwise it is classified here from the syntax at that location."""
+    from .. import mirfacts as M
+    repo = chk.repo
+    chk.rule("R4", "every MIR call to an order-exposing HashMap/HashSet API (iter, keys, values, drain, retain, IntoIterator, Debug) is classified", floor=2)
+    fs = M.facts(repo)
+    classified = getattr(chk, "_c19_exposed", set())
+    seen = {}
+    for d in fs:
+        if d["k"] != "call" or not M.HASH_EXPOSING.search(d["callee"]):
+            continue
+        key = (d["caller"], re.sub(r"::<.*", "", d["callee"])[:90], d["file"])
+        ent = seen.setdefault(key, {"lines": set(), "cfgs": set()})
+        ent["lines"].add(d["line"])
+        ent["cfgs"].add(d["cfg"])
+    n = 0
+    for (caller, callee, f), ent in sorted(seen.items()):
+        for line in sorted(ent["lines"]):
+            n += 1
+            k = f"mir:{caller}:{callee}"
+            if (f, line) in classified:
+                chk.ok("R4", k, f, line, detail={"why": "classified by R1 at this location", "configs": sorted(ent["cfgs"])})
+                continue
+            # not tracked syntactically (struct field, alias, returned container ...): classify the expression found there
+            verdict, why = None, "no order-exposing method call or for-loop found at this location in the syntax tree"
+            if f in IMPL_FILES:
+                for fi in repo.fns(f):
+                    for node, parents in walk_with_parents(fi.body):
+                        if node["k"] == "MethodCall" and node["method"] in EXPOSING and node.get("line") == line or \
+                           (node["k"] == "MethodCall" and node["method"] in EXPOSING and node["recv"].get("line") == line):
+                            chain, top, j = [node["method"]], node, len(parents) - 1
+                            while j >= 0 and parents[j]["k"] == "MethodCall" and parents[j]["recv"] is top:
+                                top = parents[j]
+                                chain.append(top["method"])
+                                j -= 1
+                            v = classify_chain(chain, top)
+                            verdict, why = v, "chain ." + ".".join(chain)
+                        elif node["k"] == "For" and node["iter"].get("line") == line:
+                            lvs = [q["name"] for q in walk(node["pat"]) if q["k"] == "PIdent"]
+                            verdicts = loop_body_verdict(node["body"], lvs, set(), repo, chk)
+                            bad = [v for v in verdicts if not v[0]]
+                            verdict, why = (not bad), "for-loop body: " + "; ".join(b[1] for b in bad)[:160]
+            if verdict is True:
+                chk.ok("R4", k, f, line, detail={"why": why})
+            elif verdict is False:
+                chk.bad("R4", k, f, line, "hash iteration order (container reached through a field / alias / helper, found in the resolved MIR) flows into a sequence: " + why, found=callee)
+            else:
+                chk.inconc("R4", f"{k} at {f}:{line}: resolved order-exposing hash API call whose consumer is not recognised ({why})")
+    chk.unit("mir_hash_exposing_calls", n)
+
+
 def r1(chk):
     repo = chk.repo
+    chk._c19_exposed = set()
     chk.rule("R1", "hash iteration order never reaches a sequenced sink (every use of every hash container classified)", floor=25)
     ncont = 0
     for f in IMPL_FILES:
@@ -167,6 +240,7 @@ def r1(chk):
                         chk.ok("R1", mk(f".{m}"), f, node["line"], detail="point query/update")
                         continue
                     if m in EXPOSING:
+                        chk._c19_exposed.update({(f, node["line"]), (f, par.get("line"))})
                         # follow the adaptor chain upwards
                         j = i - 1
                         chain = [m]
@@ -210,6 +284,7 @@ def r1(chk):
                     chk.bad("R1", mk(f".{m}"), f, node["line"], "unclassified method on a hash container", found=m)
                     continue
                 if par["k"] == "For" and par["iter"] is cur:
+                    chk._c19_exposed.update({(f, node["line"]), (f, cur.get("line"))})
                     lvs = [q["name"] for q in walk(par["pat"]) if q["k"] == "PIdent"]
                     verdicts = loop_body_verdict(par["body"], lvs, set(cont), repo, chk)
                     bad = [v for v in verdicts if not v[0]]
@@ -285,3 +360,5 @@ def run(chk):
     chk.guard("R1", lambda: r1(chk))
     chk.guard("R2", lambda: r2(chk))
     chk.guard("R3", lambda: r3(chk))
+    if chk.tier == "thorough":
+        chk.guard("R4", lambda: r4_mir(chk))
